@@ -210,19 +210,25 @@ Proof. exact crash_hyps_example. Qed.
 (* ---------------------------------------------------------------------- *)
 (* ShardedFileAccessor.close() (StFaults.close_prog): per dirty shard, in
    insertion order: mkdir, open "wb", one write per block (zero header, the
-   data of each minishard - whose buffer is deleted after its write -, the
-   minishard indices, the shard index over the zero header), close; dirty is
-   reset only after that.  The payload bytes are given ([shard_desc]); the
-   writer state is, per shard, the dirty flag and the number of deleted
-   minishard buffers.  [reach p cs a]: some sequence of replies of the
-   primitives drives p through the calls cs to the result a - every run,
-   faulted or not, on any tree, ends in a reachable result, so the statements
-   below hold for every fault position, errno and tree. *)
+   data of each minishard, the minishard indices, the shard index over the zero
+   header), close; dirty is reset, and the write buffers are released, only
+   after that.  The payload bytes are given ([shard_desc]); the writer state
+   is, per shard, the dirty flag.
+   [reach p cs a]: some sequence of replies of the primitives drives p through
+   the calls cs to the result a - every run, faulted or not, on any tree, ends
+   in a reachable result, so the statements on [reach] hold for every fault
+   position, errno and tree.
+   [treach p t a t']: the same with the trees: every call is executed on the
+   tree, or fails (any errno; a failing write leaves [trunc data]) - any
+   number of failures. *)
 
 Theorem C18_close_runs_are_reachable :
   forall (B : Type) (plain : list N -> B) (trunc : B -> B) A (p : prog B A) k e t,
-  exists cs, reach B p cs (fst (run_fault B (plain []) trunc k e t p)).
-Proof. intros. apply run_fault_reach. Qed.
+  (exists cs, reach B p cs (fst (run_fault B (plain []) trunc k e t p))) /\
+  treach B plain trunc p t (fst (run_fault B (plain []) trunc k e t p))
+                           (snd (run_fault B (plain []) trunc k e t p)) /\
+  treach B plain trunc p t (fst (run B (plain []) t p)) (snd (run B (plain []) t p)).
+Proof. exact runs_are_reachable. Qed.
 Print Assumptions C18_close_runs_are_reachable.
 
 (* (a) a fault in ANY primitive of close (mkdir, open, any of the writes, the
@@ -238,45 +244,34 @@ Print Assumptions C18_close_fault_to_error.
 
 (* (b) every way a close can end.  Either it returns normally: then every
    shard was handled ([segs]: shard after shard, each Shard.close returning
-   normally) and is clean.  Or it raises at some shard x: the shards before x
-   were handled completely and are clean, x is left in the state [stx], the
-   shards after x keep their state - and no primitive was called for them (the
-   calls are those of l1 and of x). *)
+   normally) and is clean.  Or it raises an I/O error at some dirty shard x:
+   the shards before x were handled completely and are clean, x stays dirty,
+   the shards after x keep their flag - and no primitive was called for them
+   (the calls are those of l1 and of x). *)
 Theorem C18_close_reach :
   forall (B : Type) (plain : list N -> B),
   forall l done cs r S',
   reach B (close_shards B plain l done) cs (r, S') ->
-  (r = COk /\ S' = rev done ++ map closed_of l /\ segs B plain l cs) \/
-  (r <> COk /\ exists l1 x l2 ca cb stx,
-     l = l1 ++ x :: l2 /\ cs = ca ++ cb /\ segs B plain l1 ca /\
-     reach B (shard_close_prog B plain (fst x) (snd x)) cb (r, stx) /\
-     S' = rev done ++ map closed_of l1 ++ stx :: map snd l2).
+  (r = COk /\ S' = rev done ++ clean l /\ segs B plain l cs) \/
+  (r = CIOErr /\ exists l1 x l2 ca cb,
+     l = l1 ++ x :: l2 /\ cs = ca ++ cb /\ segs B plain l1 ca /\ snd x = true /\
+     reach B (shard_close_prog B plain (fst x) (snd x)) cb CIOErr /\
+     S' = rev done ++ clean l1 ++ true :: map snd l2).
 Proof. exact close_reach. Qed.
 Print Assumptions C18_close_reach.
 
 (* what one Shard.close can do: calls only on its directory and file; normal
-   return: it was clean (no call at all) or its buffers were intact and the
-   last thing written to its file is the complete shard; I/O error: it stays
-   dirty and the number of deleted buffers is min(n, writes made - 2) (the
-   failing write included: 0 for a fault at mkdir, open, the zero header or the
-   first data block; n for a fault in the index writes, the shard index or the
-   file's close); AttributeError: a buffer was already deleted, the state is
-   unchanged and the file now holds just the zero header *)
+   return: it was clean (no call at all) or the last thing written to its file
+   is the complete shard; an I/O error only for a dirty shard *)
 Theorem C18_shard_close_reach :
   forall (B : Type) (plain : list N -> B),
-  forall d st cs r st',
-  reach B (shard_close_prog B plain d st) cs (r, st') ->
+  forall d dirty cs r,
+  reach B (shard_close_prog B plain d dirty) cs r ->
   on_shard B d cs /\
   match r with
-  | COk => st' = closed_of (d, st) /\
-           (sh_dirty st = false /\ cs = [] \/
-            sh_dirty st = true /\ sh_dead st = 0%nat /\
-            last_written B (sd_file d) cs = Some (plain (complete d)))
-  | CIOErr => sh_dirty st = true /\ sh_dirty st' = true /\
-              ((sh_dead st = 0%nat /\ sh_dead st' = Nat.min (sd_n d) (nwrites B cs - 2)) \/
-               ((0 < sh_dead st)%nat /\ st' = st))
-  | CAttrErr => sh_dirty st = true /\ (0 < sh_dead st)%nat /\ st' = st /\
-                last_written B (sd_file d) cs = Some (plain (sd_zero d))
+  | COk => dirty = false /\ cs = [] \/
+           dirty = true /\ last_written B (sd_file d) cs = Some (plain (complete d))
+  | CIOErr => dirty = true
   end.
 Proof. exact shard_reach. Qed.
 Print Assumptions C18_shard_close_reach.
@@ -287,55 +282,83 @@ Print Assumptions C18_shard_close_reach.
 Theorem C18_closed_shards_complete :
   forall (B : Type) (plain : list N -> B),
   forall l1 cs, segs B plain l1 cs -> files_apart l1 ->
-  forall x, In x l1 -> sh_dirty (snd x) = true ->
-  sh_dead (snd x) = 0%nat /\ last_written B (sd_file (fst x)) cs = Some (plain (complete (fst x))).
+  forall x, In x l1 -> snd x = true ->
+  last_written B (sd_file (fst x)) cs = Some (plain (complete (fst x))).
 Proof. exact segs_complete. Qed.
 Print Assumptions C18_closed_shards_complete.
 
-(* (c) the retry.  [retry_descs l S'] is the shard list of a second close on
-   the state the first one left.  It returns normally only if the shard that
-   failed had all its buffers (fault at mkdir, open, zero header or first data
-   block, by C18_shard_close_reach), and then every shard that was still dirty
-   is written completely; the clean ones are not touched *)
-Theorem C18_retry_descs :
-  forall l1 x l2 stx,
-  retry_descs (l1 ++ x :: l2) (map closed_of l1 ++ stx :: map snd l2)
-  = map (fun y => (fst y, closed_of y)) l1 ++ (fst x, stx) :: l2.
-Proof. exact retry_descs_eq. Qed.
-Print Assumptions C18_retry_descs.
+(* (b) and (c) on the trees.  Hypotheses, all about the shard list l and the
+   tree t before the first close:
+     [apart (map fst l)]: every shard file is <its directory>/<name> without
+        ".." components, and no shard file is equal to or above a shard
+        directory;
+     [NoDup (map fname l)]: the shard files are pairwise different;
+     [good (map fst l) t]: t is a tree (every entry has a directory as parent),
+        no file stands where a shard directory or one of its ancestors is
+        needed, no directory where a shard file goes.
+   [whole t x]: the file of shard x holds the complete shard in t;
+   [off l q]: q is neither the file of a dirty shard of l nor a directory on
+   the way to one. *)
 
-Theorem C18_retry_ok_needs_buffers :
-  forall (B : Type) (plain : list N -> B),
-  forall l1 dx stx l2 cs2 S2,
-  sh_dirty stx = true ->
-  reach B (close_prog B plain (l1 ++ (dx, stx) :: l2)) cs2 (COk, S2) -> sh_dead stx = 0%nat.
-Proof. exact retry_ok_needs_buffers. Qed.
-Print Assumptions C18_retry_ok_needs_buffers.
+(* any run of close, with any failures: the tree stays good; nothing but the
+   files of dirty shards and the directories leading to them changes (so the
+   shards closed earlier, and everything else stored, is unchanged); a shard
+   that was dirty and is now clean has its complete file *)
+Theorem C18_close_on_trees :
+  forall (B : Type) (plain : list N -> B) (trunc : B -> B),
+  forall ds, apart ds ->
+  forall l done t r S t',
+  incl (map fst l) ds -> NoDup (map fname l) -> good B ds t ->
+  treach B plain trunc (close_shards B plain l done) t (r, S) t' ->
+  good B ds t' /\
+  (forall q, off l q -> lookup B t' q = lookup B t q) /\
+  exists S0, S = rev done ++ S0 /\
+    Forall2 (fun x s => s = false -> snd x = true -> whole B plain t' x) l S0.
+Proof. exact T_close. Qed.
+Print Assumptions C18_close_on_trees.
 
-Theorem C18_retry_ok_complete :
-  forall (B : Type) (plain : list N -> B),
-  forall l cs2 S2,
-  reach B (close_prog B plain l) cs2 (COk, S2) -> files_apart l ->
-  S2 = map closed_of l /\
-  forall x, In x l -> sh_dirty (snd x) = true ->
-    sh_dead (snd x) = 0%nat /\ last_written B (sd_file (fst x)) cs2 = Some (plain (complete (fst x))).
-Proof. exact retry_ok_complete. Qed.
-Print Assumptions C18_retry_ok_complete.
+(* (c) the retry: after a close with ANY failures, a second close in which no
+   primitive fails (the explicit retry, or the accessor's atexit hook) returns
+   normally, every shard is clean, the file of EVERY shard that was dirty
+   holds the complete shard, and nothing else has changed since before the
+   first close *)
+Theorem C18_close_retry :
+  forall (B : Type) (plain : list N -> B) (trunc : B -> B),
+  forall l t r1 S1 t1,
+  apart (map fst l) -> NoDup (map fname l) -> good B (map fst l) t ->
+  treach B plain trunc (close_prog B plain l) t (r1, S1) t1 ->
+  exists t2, run B (plain []) t1 (close_prog B plain (retry_descs l S1)) = ((COk, clean l), t2) /\
+    good B (map fst l) t2 /\
+    (forall x, In x l -> snd x = true -> whole B plain t2 x) /\
+    (forall q, (forall x, In x l -> q <> fname x /\ ~ prefix q (sd_dir (fst x))) ->
+               lookup B t2 q = lookup B t q).
+Proof. exact close_retry. Qed.
+Print Assumptions C18_close_retry.
 
-(* otherwise - a buffer of the failing shard was deleted: fault at the second
-   or a later data block, at an index write, at the shard index or at the
-   file's close - the second close never returns normally: it raises an I/O
-   error or the AttributeError, the states are unchanged, and in the
-   AttributeError case the shard file has been truncated to the zero header
-   (also when the first attempt had written it completely and only the file's
-   close had failed) *)
-Theorem C18_retry_raises :
-  forall (B : Type) (plain : list N -> B),
-  forall l1 dx stx l2 cs2 r2 S2,
-  sh_dirty stx = true -> (0 < sh_dead stx)%nat ->
-  Forall (fun y => sh_dirty (snd y) = false) l1 ->
-  reach B (close_prog B plain (l1 ++ (dx, stx) :: l2)) cs2 (r2, S2) ->
-  r2 <> COk /\ S2 = map snd l1 ++ stx :: map snd l2 /\
-  (r2 = CAttrErr -> last_written B (sd_file dx) cs2 = Some (plain (sd_zero dx))).
-Proof. exact retry_raises. Qed.
-Print Assumptions C18_retry_raises.
+(* ... in the form the harness executes: one failing call k, errno e *)
+Theorem C18_close_retry_after_fault :
+  forall (B : Type) (plain : list N -> B) (trunc : B -> B),
+  forall l k e t,
+  apart (map fst l) -> NoDup (map fname l) -> good B (map fst l) t ->
+  let '((r1, S1), t1) := run_fault B (plain []) trunc k e t (close_prog B plain l) in
+  exists t2, run B (plain []) t1 (close_prog B plain (retry_descs l S1)) = ((COk, clean l), t2) /\
+    forall x, In x l -> snd x = true -> whole B plain t2 x.
+Proof. exact close_retry_fault. Qed.
+Print Assumptions C18_close_retry_after_fault.
+
+(* the hypotheses are decidable ([close_hyps], evaluated by the harness on every
+   case it generates: model op sh_close) and the checker is sound *)
+Theorem C18_close_hyps_sound :
+  forall (B : Type) l t, close_hyps B l t = true ->
+  apart (map fst l) /\ NoDup (map fname l) /\ good B (map fst l) t.
+Proof. exact close_hyps_sound. Qed.
+Print Assumptions C18_close_hyps_sound.
+
+Theorem C18_close_retry_checked :
+  forall (B : Type) (plain : list N -> B) (trunc : B -> B) l k e t,
+  close_hyps B l t = true ->
+  let '((r1, S1), t1) := run_fault B (plain []) trunc k e t (close_prog B plain l) in
+  exists t2, run B (plain []) t1 (close_prog B plain (retry_descs l S1)) = ((COk, clean l), t2) /\
+    forall x, In x l -> snd x = true -> whole B plain t2 x.
+Proof. exact close_retry_checked. Qed.
+Print Assumptions C18_close_retry_checked.
